@@ -33,7 +33,7 @@ PROPERTY = "C14"
 CASE_TIMEOUT = 30  # s of wall clock per case in pool workers (runner watchdog): a case that spins forever is a verdict, not exit 2
 THEOREM_MODULE = "NemoVerif.Theorems.C14"
 RULE = ("program: 1-2 dialog flows (distinct start intents) + 0-2 subflows over user/bot/execute/set/if-else/while/"
-        "break/continue/do, nesting <= 4, plus dedicated nested-`do` chain programs (depth 2-3, inner call in last position) and computation-loop programs (counters/accumulators, iterations without a blocking statement); condensed re-entry histories (the start intent right after the flow completed or was aborted); history: produced by walking the program with the reference interpreter, "
+        "break/continue/do, nesting <= 4, plus dedicated nested-`do` chain programs (depth 2-3, inner call in last position) and computation-loop programs (counters/accumulators, iterations without a blocking statement), if/if-else trees inside counter loops at every nesting depth (both condition values while the loop runs), context-dependent subflows called several times; condensed re-entry histories (the start intent right after the flow completed or was aborted); history: produced by walking the program with the reference interpreter, "
         "following it or leaving it (other intent, other bot step, failed action, hide_prev_turn, restart) at a random "
         "point, then a random tail; decisions compared on every prefix. non-trivial = the program has a conditional or "
         "loop or subflow call AND the history reaches at least 3 decisions; distinct = distinct (program, history).")
@@ -47,7 +47,7 @@ ASSUMPTIONS = [
     "kind llm: llm_flows.co + generated self-check style rails; object paths ($config.x.y, $event.x, $generation_options.x.y) are flattened; an unguarded attribute path through None raises in Python but reads None in the model (shipped flows guard)",
     "kinds fn/rt — structured subset only: user/bot/execute/set/if-else/while/break/continue/do; no when/else-when (branch), labels/goto, check/stop, flow parameters, priorities other than 1.0, extension flows",
     "context values are None/bool/int/str; expressions do not mention $event/$config/$last_user_message/$last_bot_message",
-    "every while body starts with a step statement (the real slide does not terminate otherwise)",
+    "every generated loop terminates by construction: its body starts with a step statement, or it is a counter loop ($i/$j/$k incremented unconditionally at the top level of the body); every call into the code under test runs under a CPU-time limit, a call that does not return where the reference interpreter reaches the next statement is a violation",
     "uids are modelled by a counter (they are never part of a decision)",
 ]
 
@@ -1304,6 +1304,11 @@ _G = types.SimpleNamespace(armed=False, hangs=0, spent=0.0, skipped=0, sick=0)
 
 def _on_vtalrm(signum, frame):
     if _G.armed:
+        f = frame
+        while f is not None:
+            if f.f_code.co_name == "__del__":
+                return   # an exception raised inside a finalizer is swallowed ("Exception ignored in …"): wait for the next tick
+            f = f.f_back
         raise _Hang()
 
 
